@@ -22,17 +22,11 @@ Do(step, adv) ==
 Next == n < MaxLen /\ \E step \in Steps : Do(step, FALSE) \/ (~advanced /\ Do(step, TRUE))
 Spec == Init /\ [][Next]_vars
 \* L1 on the step just taken (all inputs of the step are in `last`)
-\* Model hypothesis confirmed on the real code (known finding C27-window-checked-at-init-only): the
-\* validity window is evaluated when the session is created only, so a session begun inside the
-\* window completes after the account expired.  Exempted HERE so that exploration continues past
-\* it; the trace spec applies L1 without exemption and the orchestrator matches the finding.
-KnownCross == last.res = "success" /\ w = "expiring" /\ last.adv
-Inv == n > 0 => (KnownCross \/ L1Step(cfg, w, last.adv, last.H, last.step, last.res, last.mechs, last.tok))
-\* with the window taken out of the picture L1 holds without exemption
-InvNoCross == (n > 0 /\ w # "expiring") => L1Step(cfg, w, last.adv, last.H, last.step, last.res, last.mechs, last.tok)
+Inv == n > 0 => L1Step(cfg, w, last.adv, last.H, last.step, last.res, last.mechs, last.tok)
 \* vacuity guards (each VIOLATED when checked alone)
 ReachTotpSuccess   == ~(last.res = "success" /\ S.h = "passwordtotp")
 ReachBackupSuccess == ~(last.res = "success" /\ S.h = "passwordbackupcode")
 ReachLockedBegin   == ~(last.step.a = "begin" /\ last.res = "denied")
-ReachCrossWindow   == ~(last.res = "success" /\ w = "expiring" /\ advanced)
+\* a live session whose account expired meanwhile is denied at its next credential step
+ReachCrossWindow   == ~(last.res = "denied" /\ w = "expiring" /\ last.adv /\ last.step.a = "cred" /\ last.H.has /\ ~last.H.ended /\ ~S.locked)
 =============================================================================
